@@ -21,4 +21,13 @@ def harnesses(ctx, tier):
                           unwind_funcs={"main": 17, "yr_arena_ptr_to_ref": 3}, flags=["--max-field-sensitivity-array-size", "128", "--object-bits", "10"],
                           desc="real VM on INIT_RULE/cond/MATCH_RULE x3 (+PUSH_RULE): verdict and namespace bits for symbolic condition values and namespaces; patterns %d..%d of (required_eval x disabled x global flags)" % (lo, lo + 15),
                           bounds="3 rules, 2 namespaces, all 64-bit condition values", functions=["yr_execute_code (OP_INIT_RULE, OP_MATCH_RULE, OP_PUSH_RULE)", "jmp_if"]))
+    import os
+    from vf.common import HARNESS
+    hs.append(Harness(name="H3_module_import_messages", src="c11/h_modules.c", includes=["-I" + os.path.join(HARNESS, "c11", "modlist")], unwind=6, timeout=600,
+                      flags=["--object-bits", "10"],
+                      unwind_funcs={"strcmp": 8, "strlen": 8, "yr_hash": 8, "hash": 8, "yr_hash_table_create": 6, "_yr_hash_table_lookup": 4, "strcpy": 8, "memcpy": 8,
+                                    "rec:yr_object_destroy": 1, "yr_object_destroy": 2, "yr_modules_load": 3, "yr_modules_do_declarations": 3, "main": 8},
+                      desc="yr_modules_load called twice for one module in one scan: message sequence, callback errors, single load",
+                      bounds="1 module, all callback answers, load success/failure", functions=["yr_modules_load", "yr_modules_do_declarations", "yr_object_create", "yr_hash_table_add"],
+                      stubs=["module table with one dummy module", "module declarations/load stubs"]))
     return hs
